@@ -41,6 +41,20 @@ def gen(wd, nn=3, atoms="full", depth=1):
     return cached(f"ec-gen-{nn}-{atoms}-{depth}", go, module="ExprCalc")
 
 
+def gen_x(wd):
+    """ExprCalcX.tla: the calculator started from the four-name alphabet of interventional / counterfactual joints, depth 1."""
+    def go():
+        cfg = wd / "ExprCalcX.cfg"
+        cfg.write_text('SPECIFICATION SpecX\nCONSTANTS\n  NNames = 4\n  AtomSet = "full"\n  MaxDepth = 1\n  Seeds = {1}\n  Check = FALSE\n'
+                       "INVARIANT Emit\nCHECK_DEADLOCK FALSE\n")
+        r = tlc("ExprCalcX.tla", str(cfg), workers=4, meta=wd / "ecxgen")
+        tlc_ok(r, "ExprCalcX gen")
+        ts = tagged_lines(r["out"], "CALC")
+        ts.sort(key=lambda t: json.dumps(t, sort_keys=True))
+        return {"terms": ts, "generated": r["generated"], "distinct": r["distinct"]}
+    return cached("ecx-gen-4-1", go, module="ExprCalcX")
+
+
 def sim(wd, nn, atoms, depth, num, tlc_seed, cap=40000):
     """Random walks of the machine (tlc -simulate).  TLC evaluates the Emit invariant on every successor it generates
     along a walk (about 90 per step), so a walk contributes the terms on it and all their neighbours; `num` walks give
@@ -99,8 +113,13 @@ def strip(rec):
 
 def judge(wd, nn, recs, *, seeds=(1, 2), tag="tvx"):
     by_id = {r["id"]: r for r in recs}
-    chunks = [recs[i::NCPU] for i in range(NCPU)]
-    groups = [calc_group(nn, [strip(r) for r in c]) for c in chunks if c]
+    # records of the four-name alphabet (ExprCalcX.tla, ids contain "x4-") need four names whatever the caller asks for
+    four = [r for r in recs if "x4-" in r["id"]]
+    rest = [r for r in recs if "x4-" not in r["id"]]
+    groups = []
+    for k, part in ((nn, rest), (4, four)):
+        chunks = [part[i::NCPU] for i in range(NCPU)]
+        groups += [calc_group(k, [strip(r) for r in c]) for c in chunks if c]
     vs, st = tv.validate(wd, groups, seeds=seeds, layout="clique", fam="F", tag=tag)
     return vs, st, by_id
 
